@@ -190,6 +190,8 @@ def run(ctx):
                           'back': fmt(back)}, clause='inverse')
     ctx.count('add_days inverse law', ninv)
 
+    glue_oracles(ctx, rng, alld, dobj)
+
     ctx.assumptions += [
         'anchors: serial(1 Mar 1900) = 61 and 1 Mar 1900 was a Thursday (cross-checked against Python datetime for every date)',
         'date_from_index uses float division under fastmath in the compiled kernel; its agreement with the integer/rational reading is validated exhaustively on the property domain, not proved',
@@ -198,6 +200,95 @@ def run(ctx):
     return C.finish(ctx, 'proof', 'lake build FinVerif.Props.C13 && lake env lean .cache/audit/Audit_C13.lean',
                     C.TRUSTED_BASE_COMMON + ['Spec: Gregorian successor + Excel anchor (FinVerif/Spec/Date.lean); Python datetime as an independent oracle'],
                     RULE)
+
+
+
+def glue_oracles(ctx, rng, alld, dobj):
+    """The glue around the core named by the property's observation points: datediff, date_range, from_datetime,
+    Date.from_string, Date.datetime, add_years (whole years), ON/TN/W tenors, list-valued arguments, vectorised
+    comparisons.  Independent oracle: Python datetime."""
+    import datetime as pydt
+    from financepy.utils.date import Date, datediff, date_range, from_datetime
+    n = 0
+    sample = rng.sample(alld, 1500 if ctx.quick() else 30000)
+    for t in sample:
+        d, m, y = t
+        dt = dobj[t]
+        py = pydt.date(y, m, d)
+        n += 1
+        if dt.datetime() != py or fmt(from_datetime(py)) != fmt(dt) or fmt(Date.from_date(py)) != fmt(dt) or \
+                fmt(Date.from_string(py.strftime('%d-%m-%Y'), '%d-%m-%Y')) != fmt(dt):
+            ctx.violation('Date <-> datetime / string conversions do not round-trip', {'date': t}, clause='conversions')
+        k = rng.randint(-3000, 3000)
+        py2 = py + pydt.timedelta(days=k)
+        if py2 >= pydt.date(1900, 3, 1) and py2.year <= 2200:
+            o = dobj.get((py2.day, py2.month, py2.year)) or Date(py2.day, py2.month, py2.year)
+            if datediff(dt, o) != k or (o - dt) != k:
+                ctx.violation('datediff / subtraction is not the number of calendar days', {'from': t, 'days': k,
+                              'datediff': datediff(dt, o), 'sub': o - dt}, clause='datediff')
+        yy = rng.randint(-20, 20)
+        if 1901 <= y + yy <= 2199:
+            try:
+                r = fmt(dt.add_years(yy))
+                e = fmt(dt.add_months(12 * yy))
+                vec = [fmt(x) for x in dt.add_years([yy, 1])]
+                vm = [fmt(x) for x in dt.add_months([12 * yy, 1])]
+            except Exception as ex:  # noqa: BLE001
+                r, e, vec, vm = 'E:' + type(ex).__name__, None, None, None
+            if r != e or vec is None or vec[0] != e or vm[0] != e:
+                ctx.violation('add_years(n) differs from add_months(12 n), or list-valued calls differ from scalar calls',
+                              {'date': t, 'years': yy, 'add_years': r, 'add_months': e, 'vector_years': vec,
+                               'vector_months': vm}, clause='add-years')
+    # tenor strings: ON / TN = one day, weeks, lists, malformed
+    for t in sample[:400]:
+        dt = dobj[t]
+        if t[2] >= 2199:
+            continue
+        try:
+            on, tn, w2 = fmt(dt.add_tenor('ON')), fmt(dt.add_tenor('TN')), fmt(dt.add_tenor('2W'))
+            lst = [fmt(x) for x in dt.add_tenor(['1D', '3M', '1Y'])]
+            one, fourteen = fmt(dt.add_days(1)), fmt(dt.add_days(14))
+            sc = [fmt(dt.add_tenor('1D')), fmt(dt.add_tenor('3M')), fmt(dt.add_tenor('1Y'))]
+        except Exception as ex:  # noqa: BLE001
+            ctx.violation('tenor arithmetic raised on a valid tenor', {'date': t, 'error': type(ex).__name__}, clause='tenor-strings')
+            continue
+        n += 1
+        if on != one or tn != one or w2 != fourteen or lst != sc:
+            ctx.violation('ON/TN/week tenors or list-valued add_tenor are inconsistent with day arithmetic',
+                          {'date': t, 'ON': on, 'TN': tn, '2W': w2, 'list': lst, 'scalar': sc}, clause='tenor-strings')
+    # date_range: inclusive ends, consecutive steps
+    for t in sample[:150]:
+        dt = dobj[t]
+        if t[2] >= 2195:
+            continue
+        k = rng.randint(0, 40)
+        end = dt.add_days(k)
+        n += 1
+        r = [fmt(x) for x in date_range(dt, end)]
+        e = [fmt(dt.add_days(i)) for i in range(k + 1)]
+        if r != e or date_range(end, dt) != ([] if k > 0 else date_range(end, dt)):
+            ctx.violation('date_range(start, end) is not the list of consecutive days start..end', {'start': t, 'days': k,
+                          'got': r[:5] + ['...'] + r[-2:]}, clause='date-range')
+        ms = [fmt(x) for x in date_range(dt, dt.add_months(7), '3M')]
+        em = [fmt(dt.add_tenor(f'{3 * i}M')) for i in range(3)] + [fmt(dt.add_months(7))]
+        # successive 3M steps are taken from the previous date (clipped day can stick): compare with that rule
+        cur, chain = dt, []
+        while cur < dt.add_months(7):
+            chain.append(fmt(cur))
+            cur = cur.add_tenor('3M')
+        chain.append(fmt(dt.add_months(7)))
+        if ms != chain:
+            ctx.violation('date_range with a tenor is not the chain of add_tenor steps closed by the end date',
+                          {'start': t, 'got': ms, 'expected': chain}, clause='date-range')
+    # vectorised comparisons
+    for t in sample[:300]:
+        a = dobj[t]
+        others = [dobj[x] for x in rng.sample(sample, 4)]
+        n += 1
+        if list(a < others) != [a < o for o in others] or list(a >= others) != [a >= o for o in others] or \
+                list(a - others) != [a - o for o in others]:
+            ctx.violation('vectorised date comparison/subtraction differs from element-wise calls', {'date': t}, clause='vectorised')
+    ctx.count('glue: conversions, datediff, add_years, tenor strings, date_range, vectorised comparisons', n)
 
 
 def classify_ctor(op, impl, spec):
